@@ -78,6 +78,11 @@ func init() {
 		o.Ghost = map[string]interface{}{"clock": name}
 		return &Ptr{Obj: o}
 	}
+	// vClockBetween(name, lo, hi): all readings of the clock lie in [lo, hi] ns (stated bound of a harness)
+	intrinsics["vClockBetween"] = func(in *Interp, fn *ssa.Function, a []Value) Value {
+		in.Ghost["clockrange:"+constStr(in, a[0], "vClockBetween name")] = [2]*smt.Term{termArg(in, a[1]), termArg(in, a[2])}
+		return nil
+	}
 	intrinsics["vInstant"] = func(in *Interp, fn *ssa.Function, a []Value) Value {
 		name := in.fresh(constStr(in, a[0], "vInstant name"))
 		t := smt.NewVar(symName(name), smt.KBV, 64)
@@ -263,6 +268,9 @@ func (in *Interp) clockNow(name string) Value {
 	if k > 0 {
 		prev := in.Ghost[fmt.Sprintf("clock:%s:%d", name, k-1)].(*smt.Term)
 		in.Assume(smt.BVSle(prev, t))
+	}
+	if r, ok := in.Ghost["clockrange:"+name].([2]*smt.Term); ok {
+		in.Assume(smt.And(smt.BVSle(r[0], t), smt.BVSle(t, r[1])))
 	}
 	in.Ghost[fmt.Sprintf("clock:%s:%d", name, k)] = t
 	in.event("clock %s read #%d", name, k)
